@@ -465,9 +465,7 @@ Proof.
     eapply (Cat_table_same_root s s' d pt sc ents osc t o tr'); eauto.
     pose proof (find_root_bound s o tr Hinv Hr) as X.
     pose proof (c_ptfits _ _ _ _ _ _ HC) as Hf. rewrite Forall_forall in Hf. specialize (Hf _ He).
-    unfold pt_fits, pt_row in Hf. cbn [fst snd row_fits pageTableSchema fd_type value_fits] in Hf.
-    rewrite andb_true_r in Hf. apply andb_true_iff in Hf as [_ Hf]. unfold int64_ok in Hf.
-    apply andb_true_iff in Hf as [_ Hf]. apply Z.leb_le in Hf. unfold OFFMAX. lia. }
+    apply pt_fits_bound in Hf. unfold OFFMAX. exact Hf. }
   split; [exact HR'|].
   assert (Hf' : find_tbl (tb_name t) (set_rows (tb_name t) (map snd idrows') d) =
                 Some (mkTbl (tb_name t) (tb_schema t) (map snd idrows'))).
